@@ -11,7 +11,7 @@ theorem ctxOK_B {cfgA cfgB : Cfg} (hcf : CfgsOK cfgA cfgB) {l : LSt} (h : LInv c
   ⟨by simp only [mkCtx, h.cb]; exact hcf.pb, by simp only [mkCtx, h.cb]; exact hcf.nb, by simp only [mkCtx, h.ca, h.cb]; exact hcf.ts.symm,
     by simp only [mkCtx, h.ca, h.cb]; exact hcf.st.symm, by simp only [mkCtx, h.ca, h.cb]; exact hcf.bs.symm,
     by simp only [mkCtx, h.ca]; exact hcf.ne1, by simp only [mkCtx, h.ca]; exact hcf.ne2, h.ab.sok, hb,
-    by simp only [mkCtx, h.cb]; exact hcf.vdb⟩
+    by simp only [mkCtx, h.cb]; exact hcf.vdb, by simp only [mkCtx, h.cb]; exact hcf.nxb⟩
 
 /-- the fields of the link after a delivery to B -/
 theorem deliverB_fields (l : LSt) (m : OutMsg) (rest : List OutMsg) (hq : l.a2b = m :: rest) :
